@@ -14,6 +14,7 @@ import (
 	"sort"
 	"strconv"
 	"strings"
+	"syscall"
 	"time"
 
 	glog "github.com/JunNishimura/Goit/internal/log"
@@ -567,6 +568,8 @@ func (w *apiWorker) op(f []string) (out string) {
 func apiMain(dir, goit string) {
 	w := &apiWorker{dir: dir, root: filepath.Join(dir, ".goit"), goit: goit}
 	os.Setenv("HOME", dir)
+	// an address-space limit turns "allocates without bound" into a prompt death of this worker
+	syscall.Setrlimit(syscall.RLIMIT_AS, &syscall.Rlimit{Cur: 6 << 30, Max: 6 << 30})
 	w.resetDir()
 	in := bufio.NewReaderSize(os.Stdin, 1<<20)
 	out := bufio.NewWriter(os.Stdout)
